@@ -31,6 +31,10 @@ pub enum Hist {
     /// parent's other bits all equal the given fill) and wrapped again with Value::left / right:
     /// the constructors reuse the payload's buffer when the bit in front of it already is the tag
     Rewrap(usize, bool),
+    /// a product re-assembled by Value::product from two components that were each cut out of a
+    /// parent at the given bit offset, all other bits of the parents being the given fill (the
+    /// bits behind a component's end belong to somebody else and must not leak into the product)
+    Reproduct(usize, bool),
     /// output of the Bit Machine: the value is written into a frame that reuses a region filled
     /// with ones and is copied out by `iden`, so sum padding holds arbitrary bits
     MachineOutput,
@@ -44,6 +48,11 @@ pub fn all_hists() -> Vec<Hist> {
     for off in [3, 8, 16] {
         for fill in [false, true] {
             v.push(Hist::Rewrap(off, fill));
+        }
+    }
+    for off in [0, 3, 8] {
+        for fill in [false, true] {
+            v.push(Hist::Reproduct(off, fill));
         }
     }
     v.extend([Hist::SubProdL, Hist::SubSumL, Hist::SubSumR, Hist::Pruned, Hist::Zero, Hist::SomeInner, Hist::MachineOutput]);
@@ -190,6 +199,32 @@ pub fn produce(t: &Rc<RT>, v: &Rc<RV>, h: &Hist) -> Result<Option<Value>, String
             let (x, _) = rest.as_product().ok_or("as_product None on a product")?;
             let sub = x.to_value();
             Ok(Some(if left { Value::left(sub, other.to_final()) } else { Value::right(other.to_final(), sub) }))
+        }
+        Hist::Reproduct(off, fill) => {
+            let (xa, xb, ta, tb) = match (&**v, &**t) {
+                (RV::Pair(a, b), RT::Prod(ta, tb)) => (a.clone(), b.clone(), ta.clone(), tb.clone()),
+                _ => return Ok(None),
+            };
+            // a component of type ct holding x, cut out of (off bits, (x, 11 more bits)), everything else `fill`
+            let cut = |x: &Rc<RV>, ct: &Rc<RT>| -> Result<Value, String> {
+                let tail = bits_type(11);
+                let inner = RT::prod(ct, &tail);
+                let (big, bits) = if *off == 0 {
+                    let mut bits = x.padded_fill(ct, *fill);
+                    bits.extend(vec![*fill; 11]);
+                    (inner.clone(), bits)
+                } else {
+                    let mut bits = vec![*fill; *off];
+                    bits.extend(x.padded_fill(ct, *fill));
+                    bits.extend(vec![*fill; 11]);
+                    (RT::prod(&bits_type(*off), &inner), bits)
+                };
+                let b = decode_padded(&big, &bits)?;
+                let rest = if *off == 0 { b.as_ref() } else { b.as_product().ok_or("as_product None on a product")?.1 };
+                let (c, _) = rest.as_product().ok_or("as_product None on a product")?;
+                Ok(c.to_value())
+            };
+            Ok(Some(Value::product(cut(&xa, &ta)?, cut(&xb, &tb)?)))
         }
         Hist::SomeInner => {
             let s = Value::some(v.to_value(t));
